@@ -295,6 +295,13 @@ func (x *Exec) lockOp(st *State, call *ast.CallExpr, mode string, acquire bool) 
 		}
 		// other goroutines may have changed the guarded fields
 		su, _ := ot.Underlying().(*types.Struct)
+		if x.opts["lock-no-havoc"] != "" {
+			// sequential specification: the contract is read at the linearization
+			// point (the whole body is one critical section), so the entry state
+			// is the state at Lock
+			x.note("%s: contract is a sequential specification at the linearization point (guarded fields not havoc'd at Lock)", x.unit)
+			su = nil
+		}
 		if su != nil && owner != nil && isRefType(owner.Ty) {
 			for i := 0; i < su.NumFields(); i++ {
 				f := su.Field(i)
